@@ -38,9 +38,14 @@ func shuffleValidators(
 ) ([]*node.Node, error) {
 	switch beaconParameters.Backend { // Used so that we can break to fallback.
 	case beacon.BackendVRF:
+		// Count the validators that can be elected from the nodes that have submitted proofs. As only
+		// a limited number of nodes per entity can be elected, additional nodes of the same entity
+		// do not count, otherwise the election could fail even though the fallback would succeed.
 		var numValidatorsWithPi int
+		numEntityNodesWithPi := make(map[signature.PublicKey]int)
 		for _, n := range nodes {
-			if vrf.Pi[n.ID] != nil {
+			if vrf.Pi[n.ID] != nil && numEntityNodesWithPi[n.EntityID] < schedulerParameters.MaxValidatorsPerEntity {
+				numEntityNodesWithPi[n.EntityID]++
 				numValidatorsWithPi++
 			}
 		}
